@@ -12,6 +12,7 @@ import (
 	"sync"
 	"testing"
 	"testing/synctest"
+	"time"
 
 	"verifharness/internal/abs"
 
@@ -32,6 +33,8 @@ var errF = errors.New("c07: f failed")
 const (
 	stIdle = iota
 	stInF
+	stLeftF  // f returned, the call has neither re-entered f nor returned (memberlist: sleeping before a retry)
+	stMirror // multi-switch driver: the primary is written, the call is parked in its mirror write
 	stReturned
 )
 
@@ -46,7 +49,9 @@ type caller struct {
 	err     error
 	pan     interface{}
 
-	gate chan decision
+	gate    chan decision
+	outHook func(out *Val) // sees the value a "put" is about to return (multi-switch driver)
+	mgate   chan struct{}  // multi-switch driver: parked in the mirror write until released
 }
 
 func (c *caller) snapshot() (st int, in [][3]int, inErr error, err error, pan interface{}) {
@@ -82,13 +87,22 @@ func (c *caller) begin(ctx context.Context, cl kv.Client, key string, onEnter fu
 				onEnter(c, in)
 			}
 			d := <-c.gate
+			c.mu.Lock()
+			c.st = stLeftF
+			c.mu.Unlock()
 			switch d.a {
+			case "same":
+				return x, d.rf, nil // the value f was handed, unchanged
 			case "put":
 				var inv *Val
 				if x != nil {
 					inv, _ = x.(*Val)
 				}
-				return WithTag(inv, c.id, op), d.rf, nil
+				out := WithTag(inv, c.id, op)
+				if c.outHook != nil {
+					c.outHook(out)
+				}
+				return out, d.rf, nil
 			case "decline":
 				return nil, d.rf, nil
 			default:
@@ -111,7 +125,8 @@ type step struct {
 	A     string   `json:"a"`
 	C     int      `json:"c"`
 	RF    bool     `json:"rf"`
-	E     string   `json:"e"`            // fin | ok | fail
+	E     string   `json:"e"`            // fin | ok | fail | sleep
+	W     []int    `json:"w,omitempty"`  // tick: the callers woken
 	In    [][3]int `json:"in"`           // value handed to f when e = fin
 	Val   [][3]int `json:"val"`          // Get afterwards
 	Mir   [][3]int `json:"mir"`          // secondary store afterwards
@@ -176,6 +191,25 @@ func (r *replayer) runBehaviour(t *testing.T, st *store, beh []step, key string)
 			}
 			continue
 		}
+		if s.A == "tick" { // 1 s passes on the bubble clock: every sleeping caller re-reads and enters f again
+			time.Sleep(time.Second)
+			synctest.Wait()
+			r.covered["tick"] = true
+			for _, wc := range s.W {
+				stt, in, inErr, err, _ := cs[wc].snapshot()
+				if stt != stInF {
+					fail(i+1, s, "sleeper not woken into f", describe(stt, err), "f entered")
+					ok = false
+				} else if inErr != nil || !eqTriples(in, norm(s.In)) {
+					fail(i+1, s, "value handed to f", map[string]interface{}{"in": in, "err": fmt.Sprint(inErr)}, norm(s.In))
+					ok = false
+				}
+			}
+			if !ok {
+				break
+			}
+			continue
+		}
 		c := cs[s.C]
 		switch s.A {
 		case "begin":
@@ -206,6 +240,11 @@ func (r *replayer) runBehaviour(t *testing.T, st *store, beh []step, key string)
 				ok = false
 			} else if inErr != nil || !eqTriples(in, norm(s.In)) {
 				fail(i+1, s, "value handed to f", map[string]interface{}{"in": in, "err": fmt.Sprint(inErr)}, norm(s.In))
+				ok = false
+			}
+		case "sleep":
+			if stt != stLeftF {
+				fail(i+1, s, "call should be sleeping before its retry", describe(stt, err), "left f, neither re-entered nor returned")
 				ok = false
 			}
 		case "ok":
@@ -254,15 +293,21 @@ func (r *replayer) runBehaviour(t *testing.T, st *store, beh []step, key string)
 	}
 	// drain: whoever is still inside f declines (no write) so that every goroutine ends
 	for rounds := 0; rounds < 64; rounds++ {
-		busy := false
+		busy, asleep := false, false
 		for i := 1; i <= nc; i++ {
-			if stt, _, _, _, _ := cs[i].snapshot(); stt == stInF {
+			switch stt, _, _, _, _ := cs[i].snapshot(); stt {
+			case stInF:
 				cs[i].gate <- decision{a: "decline"}
 				busy = true
+			case stLeftF: // sleeping before a retry: let the second pass
+				asleep = true
 			}
 		}
-		if !busy {
+		if !busy && !asleep {
 			break
+		}
+		if asleep {
+			time.Sleep(time.Second)
 		}
 		synctest.Wait()
 	}
@@ -272,6 +317,10 @@ func describe(st int, err error) string {
 	switch st {
 	case stInF:
 		return "parked in f"
+	case stLeftF:
+		return "left f, neither re-entered nor returned"
+	case stMirror:
+		return "parked in the mirror write"
 	case stReturned:
 		if err == nil {
 			return "returned nil"
